@@ -79,7 +79,7 @@ Lemma marshal_members_properties ma s ms props :
 Proof.
   unfold marshal_members. intros H Hp.
   apply bind_ok in H as (mp & Hmp & H). apply bind_ok in H as (md & Hmd & H).
-  apply bind_ok in H as (mi & Hmi & H). apply bind_ok in H as (mr & Hmr & H). inversion H; subst. clear H.
+  apply bind_ok in H as (mi & Hmi & H). apply bind_ok in H as (me & Hme & H). apply bind_ok in H as (mr & Hmr & H). inversion H; subst. clear H.
   unfold marshal_props in Hmp. rewrite Hp in Hmp. apply bind_ok in Hmp as (d & Hd & Hmp). inversion Hmp; subst.
   exists d. split; [exact Hd|].
   unfold marshal_type. destruct (s_type s) as [|c t]; [destruct (s_types s)|]; cbn; reflexivity.
